@@ -125,4 +125,4 @@ Inductive cformat := CF10 | CF13.
 Definition cf_decompress (f : cformat) (m : mode) (bytes : list N) : outcome (list N) :=
   match f with CF10 => lz10_decompress m bytes | CF13 => lz13_decompress m bytes end.
 Definition cf_compress (f : cformat) (m : mode) (bytes : list N) : outcome (list N) :=
-  match f with CF10 => Ok (compress10 bytes) | CF13 => compress13 m bytes end.
+  match f with CF10 => compress10_o bytes | CF13 => compress13_o m bytes end.
